@@ -80,6 +80,22 @@ KNOWN_DEFECT_deleted_entry_reads_marker = False  # recorded in known_findings.js
 #                           outer scope's backup (parameters and caches keep a stack; the grid does not).  Same for a
 #                           Cartesian grid (widths and offset) and for the axial mesh of an assembly.
 KNOWN_DEFECT_nested_grid_backup = False  # repaired in /repo (fix: 73844b2)
+#  component_scope_skips_own_material: clad = block[1]; clad.material._setCache("pre", 1.0)
+#                           with clad.retainState(): clad.material._setCache("in", 2.0)
+#                           -> clad.material.cached still holds "in" afterwards (a scope on the BLOCK drops it):
+#                           StateRetainer walks (root, root.iterChildrenWithMaterials(deep=True)), which yields the
+#                           materials of the root's DESCENDANTS only; a Component has no children, so its own material
+#                           (whose cache holds e.g. 'pseudoDensity') is neither backed up nor restored.
+KNOWN_DEFECT_component_scope_skips_own_material = True
+#  params_from_copies_serial_number: b2.updateParamsFrom(b)  or  b2.copyParamsFrom(b)
+#                           -> b2.p.serialNum == b.p.serialNum (both loop over other.p.items(), which includes serialNum):
+#                           two live objects share a serial number.
+KNOWN_DEFECT_params_from_copies_serial_number = True
+#  readonly_history_and_delete: makeParametersReadOnly(r); b.p[("power", 3)] = 7.0 is accepted (the tuple key makes
+#                           setattr raise TypeError, __setitem__ then writes self._hist directly) and
+#                           del b.p["power"] is accepted and b.p.power reads the default afterwards (__delitem__
+#                           goes through delattr, which the read-only switch of __setattr__ does not see).
+KNOWN_DEFECT_readonly_history_and_delete = True
 
 
 # ---------------------------------------------------------------------------
@@ -124,6 +140,26 @@ class View:
             out.append(b)
             out.extend(list(b))
         return out
+
+
+class RView(View):
+    """Names for the objects of a mini reactor: reactor > core > one assembly > blocks > (fuel, clad, duct)."""
+
+    def __init__(self, nblocks=2):
+        self.r, self.core, (a,) = _build.mk_core([(0, 0)], nblocks=nblocks, intercoolant=False)
+        View.__init__(self, a)
+
+    def objects(self):
+        return [self.r, self.core] + View.objects(self)
+
+
+def beneath(o, root):
+    """is `o` the object `root` or one of its descendants (by the parent chain)?"""
+    while o is not None:
+        if o is root:
+            return True
+        o = o.parent
+    return False
 
 
 # ---------------------------------------------------------------------------
@@ -526,6 +562,57 @@ class Scalar(Slot):
         return getattr(v, self.level).p.paramDefs[self.pname]
 
 
+class Array(Slot):
+    """any array-valued parameter (default None) of the object at `level`: 2-vector -> 2-vector"""
+
+    def __init__(self, level, pname, lo=0.0, hi=1e3):
+        self.level, self.pname, self.lo, self.hi = level, pname, lo, hi
+        self.name = "%s.%s" % (level, pname)
+        self.rare = lo + (hi - lo) / 8
+
+    def init(self, ctx, v):
+        getattr(v, self.level).p[self.pname] = shims.np_shim.array(vec(ctx, self.name + "0", 2, self.lo, self.hi))
+
+    def draw(self, ctx, tag):
+        return vec(ctx, self.name + tag, 2, self.lo, self.hi)
+
+    def apply(self, v, x):
+        getattr(v, self.level).p[self.pname] = shims.np_shim.array(list(x))
+
+    def read(self, v):
+        x = getattr(v, self.level).p[self.pname]
+        return None if x is None else tuple(x)
+
+    def pd(self, v):
+        return getattr(v, self.level).p.paramDefs[self.pname]
+
+
+class MatCache(Slot):
+    """values cached on the MATERIAL of a component (``Material._setCache``; the real materials cache e.g. their
+    'pseudoDensity' there): computed inside a scope that covers the component they must not leak out of it"""
+
+    def __init__(self, level):
+        self.level = level
+        self.name = "%s.material cached" % level
+
+    def init(self, ctx, v):
+        getattr(v, self.level).material._setCache("pre", ctx.real("mcache0" + self.level, -1e3, 1e3))
+
+    def draw(self, ctx, tag):
+        return (tag, ctx.real("mcachePre" + self.level + tag, -1e3, 1e3),
+                ctx.real("mcacheIn" + self.level + tag, -1e3, 1e3))
+
+    def apply(self, v, x):
+        tag, pre, new = x
+        m = getattr(v, self.level).material
+        m._setCache("pre", pre)
+        m._setCache("in" + tag, new)
+
+    def read(self, v):
+        m = getattr(v, self.level).material
+        return (m._getCached("pre"), m._getCached("in1"), m._getCached("in2"), m._getCached("in3"))
+
+
 def read_param(o, pname):
     """(value, has a value) through the public API: a parameter without a value raises ParameterError when read
     (``p[name]`` / ``p.name``; ``p.get(name)`` gives None), see Parameter's getter."""
@@ -588,7 +675,25 @@ SLOTS = {s.name: s for s in (ChargeTime(), Power(), MgFlux(), BuByPin(), LinPow(
                              Scalar("b", "flux", 0.0, 1e16), Scalar("clad", "percentBu", 0.0, 100.0),
                              Scalar("fuel", "percentBu", 0.0, 100.0), Scalar("a", "dischargeTime", -10.0, 1e4),
                              Unset("fuel", "buRate"),
-                             Unset("clad", "zrFrac", 0.0, 1.0), DeletedEntry("b", "flux", 0.0, 1e16))}
+                             Unset("clad", "zrFrac", 0.0, 1.0), DeletedEntry("b", "flux", 0.0, 1e16),
+                             MatCache("clad"), MatCache("fuel"),
+                             # parameters whose NAME is defined on several classes of the tree (each class has a
+                             # definition of its own; a keep-set names definitions, not names)
+                             Scalar("core", "power", 0.0, 1e9),
+                             Scalar("core", "kInf", 0.0, 3.0), Scalar("a", "kInf", 0.0, 3.0), Scalar("b", "kInf", 0.0, 3.0),
+                             Array("a", "detailedNDens"), Array("b", "detailedNDens"), Array("fuel", "detailedNDens"),
+                             Array("duct", "detailedNDens"),
+                             Scalar("b", "percentBu", 0.0, 100.0), Scalar("duct", "percentBu", 0.0, 100.0),
+                             Scalar("b", "massHmBOL", 0.0, 1e6), Scalar("b", "molesHmBOL", 0.0, 1e6),
+                             Scalar("fuel", "molesHmBOL", 0.0, 1e6), Scalar("duct", "molesHmBOL", 0.0, 1e6),
+                             Scalar("a", "timeToLimit", 0.0, 1e6), Scalar("b", "timeToLimit", 0.0, 1e6),
+                             Scalar("a", "THmassFlowRate", 0.0, 1e3), Scalar("b", "THmassFlowRate", 0.0, 1e3),
+                             Scalar("core", "numMoves", 0.0, 1e3), Scalar("a", "numMoves", 0.0, 1e3),
+                             Scalar("r", "maxAssemNum", 0.0, 1e4), Scalar("core", "maxAssemNum", 0.0, 1e4),
+                             Scalar("core", "powerDecay", 0.0, 1e9), Scalar("a", "powerDecay", 0.0, 1e9),
+                             Scalar("b", "puFrac", 0.0, 1.0), Scalar("fuel", "puFrac", 0.0, 1.0),
+                             Scalar("core", "rxFuelDopplerConstant", -1.0, 1.0), Scalar("b", "rxFuelDopplerConstant", -1.0, 1.0),
+                             Scalar("b", "buRate", 0.0, 1e3))}
 
 
 def snap(v, slots):
@@ -650,6 +755,8 @@ SINGLE = [
     ("b.flux (entry deleted)", "clad.zrFrac (unset at entry)", "clad.cached (empty at entry)"),
     # grids other than the centred hex lattice: Cartesian, origin offset from the lattice (the offset scales with the pitch)
     ("b.cartesian grid (half-cell offset)", "b1.cartesian grid (explicit offset)", "b.power"),
+    # caches of the materials (a scope on a component covers that component's own material as well)
+    ("clad.material cached", "fuel.material cached", "b.power"),
 ]
 
 
@@ -694,22 +801,33 @@ def retain_state_component_temperature(ctx, names):
     _single_scope(ctx, names)
 
 
-def _single_scope(ctx, names):
+ROOTS = ("a", "b", "clad")
+ROOTS_REACTOR = ("r", "core", "a", "b", "fuel")
+
+
+def _single_scope(ctx, names, reactor=False):
     slots = [SLOTS[n] for n in names]
-    a = mk_assembly(2)
-    v = View(a)
+    if reactor:
+        v = RView(2)
+        roots = ROOTS_REACTOR
+        rootName = "scope root (0 reactor, 1 core, 2 assembly, 3 block, 4 fuel component)"
+    else:
+        v = View(mk_assembly(2))
+        roots = ROOTS
+        rootName = "scope root (0 assembly, 1 block, 2 clad component)"
     for s in slots:
         s.init(ctx, v)
     asg = {s.name: (ctx.bool("assign " + s.name) if not s.passive else False) for s in slots}
     keep = {s.name: (ctx.bool("keep " + s.name) if s.pd(v) is not None else False) for s in slots}
-    rootSym = ctx.int("scope root (0 assembly, 1 block, 2 clad component)", 0, 2)
+    rootSym = ctx.int(rootName, 0, len(roots) - 1)
     new = {s.name: s.draw(ctx, "1") for s in slots}
     keep = {k: bool(x) for k, x in keep.items()}
-    root = ("a", "b", "clad")[int(rootSym)]
+    root = roots[int(rootSym)]
+    rootObj = getattr(v, root)
     keepSet = [s.pd(v) for s in slots if keep[s.name]]
     ser0 = serials(v)
     s0 = snap(v, slots)
-    with {"a": v.a, "b": v.b, "clad": v.clad}[root].retainState(keepSet):
+    with rootObj.retainState(keepSet):
         for s in slots:
             if asg[s.name]:
                 s.apply(v, new[s.name])
@@ -723,12 +841,56 @@ def _single_scope(ctx, names):
             hit = s1[s.name][0] == s.rare
         if s.mixed and root != "a":
             continue   # touches parameters of the block and state of the assembly: only meaningful for root 'a'
-        if not under(s, root) or kept(s, v, keepSet):
+        if isinstance(s, MatCache) and KNOWN_DEFECT_component_scope_skips_own_material and _HIDE and root == s.level:
+            ctx.note("KNOWN_DEFECT_component_scope_skips_own_material: %s not checked for a scope opened on the "
+                     "component itself" % s.name)
+            continue
+        isUnder = beneath(getattr(v, s.level), rootObj) if reactor else under(s, root)
+        if not isUnder or kept(s, v, keepSet):
             same_value(ctx, "%s keeps the value it had when the scope ended" % s.name, s, s2[s.name], s1[s.name],
                        canary_hit=hit)
         else:
             same_value(ctx, "%s is back at its pre-scope value" % s.name, s, s2[s.name], s0[s.name], canary_hit=hit)
     ctx.check("serial numbers are untouched by a scope", all(bool(x == y) for x, y in zip(serials(v), ser0)))
+
+
+# A keep-set names parameter DEFINITIONS.  Many parameter NAMES are defined on several classes of the tree (power: block
+# and core; kInf: block, assembly and core; detailedNDens: component, block and assembly; percentBu, massHmBOL, buRate:
+# block and component; ...), each class with a definition of its own.  Keeping the definition of ONE class must not keep
+# the same-named parameter of another class beneath the scope: per instance the same-named parameters of 2-3 levels,
+# each independently assigned / named in the keep-set.
+SAME_NAME = [
+    ("core.power", "b.power"),
+    ("core.kInf", "a.kInf", "b.kInf"),
+    ("b.detailedNDens", "fuel.detailedNDens"),
+    ("b.percentBu", "fuel.percentBu", "duct.percentBu"),
+]
+SAME_NAME_THOROUGH = [
+    ("a.detailedNDens", "b.detailedNDens", "fuel.detailedNDens"),
+    ("b.massHmBOL", "fuel.massHmBOL"),
+    ("b.buRate", "fuel.buRate (unset at entry)"),
+    ("b.molesHmBOL", "fuel.molesHmBOL", "duct.molesHmBOL"),
+    ("b.detailedNDens", "fuel.detailedNDens", "duct.detailedNDens"),
+    ("a.timeToLimit", "b.timeToLimit"),
+    ("a.THmassFlowRate", "b.THmassFlowRate"),
+    ("core.numMoves", "a.numMoves"),
+    ("r.maxAssemNum", "core.maxAssemNum"),
+    ("core.powerDecay", "a.powerDecay"),
+    ("b.puFrac", "fuel.puFrac"),
+    ("core.rxFuelDopplerConstant", "b.rxFuelDopplerConstant"),
+]
+
+
+@harness("C16", bounds="mini reactor (reactor > core > assembly > 2 blocks x (fuel, clad, duct)); per instance ONE parameter "
+                       "NAME that is defined on 2-3 classes of the tree (core / assembly / block / component), observed "
+                       "on an object of each of these classes; symbolic booleans per level: assigned in the scope, ITS "
+                       "definition named in the keep-set; scope opened on the reactor, the core, the assembly, the block "
+                       "or the fuel component (symbolic); old and new values symbolic reals (scalars and 2-vectors)",
+         stubs=STUBS,
+         instances={"quick": [dict(names=list(n)) for n in SAME_NAME],
+                    "thorough": [dict(names=list(n)) for n in SAME_NAME + SAME_NAME_THOROUGH]}, max_paths=6000)
+def retain_state_keep_set_names_definitions_not_names(ctx, names):
+    _single_scope(ctx, names, reactor=True)
 
 
 # ---------------------------------------------------------------------------
@@ -970,6 +1132,171 @@ def retain_state_consecutive_scopes(ctx, names):
 
 
 # ---------------------------------------------------------------------------
+# (1d) every public mutator of component / block composition x {read-only reactor, scope with keep-set, scope without}
+#
+# The property speaks of "arbitrary assignments ... (including component number densities, current temperatures ...)" and
+# of a read-only reactor in which "every parameter assignment anywhere in it is refused and no value changes".  The
+# composition of a component is a parameter (the numberDensities dict), and most code changes it through the public
+# mutators below rather than by assigning the parameter, so each mutator is an assignment in the sense of the property:
+#   read-only reactor                  : the call is refused (RuntimeError) and NOTHING observed changes
+#   scope, nothing kept                : everything observed beneath the scope root is back at its pre-scope value
+#   scope keeping `numberDensities`    : the number densities beneath the root keep the values they had when the scope
+#                                        ended, everything else beneath the root is back
+# whatever else was or was not assigned on the same component inside the scope.
+
+U5 = "U235"
+
+
+def _fuelMassFracZr(v, x):
+    v.fuel.setMassFrac("ZR", 0.1 * x)
+
+
+MUTATORS = {
+    # on a component (the fuel: U235, U238, ZR)
+    "component.setNumberDensity": lambda v, x: v.fuel.setNumberDensity(U5, 0.004 * x),
+    "component.setNumberDensity (new nuclide)": lambda v, x: v.fuel.setNumberDensity("PU239", 0.001 * x),
+    "component.setNumberDensities": lambda v, x: v.fuel.setNumberDensities({U5: 0.004 * x, "ZR": 0.01}),
+    "component.updateNumberDensities": lambda v, x: v.fuel.updateNumberDensities({"U238": 0.02 * x, "ZR": 0.01 * x}),
+    "component.changeNDensByFactor": lambda v, x: v.fuel.changeNDensByFactor(x),
+    "component.setMass": lambda v, x: v.fuel.setMass(U5, 50.0 * x),
+    "component.addMass": lambda v, x: v.fuel.addMass("U238", 20.0 * x),
+    "component.removeMass": lambda v, x: v.fuel.removeMass("U238", 1.0 * x),
+    "component.setMasses": lambda v, x: v.fuel.setMasses({U5: 50.0 * x, "U238": 400.0}),
+    "component.setMassFrac": _fuelMassFracZr,
+    "component.adjustMassFrac": lambda v, x: v.fuel.adjustMassFrac(nuclideToAdjust="ZR", val=0.1 * x),
+    "component.adjustMassEnrichment": lambda v, x: v.fuel.adjustMassEnrichment(0.1 * x),
+    "component.clearNumberDensities": lambda v, x: v.fuel.clearNumberDensities(),
+    "component.setTemperature": lambda v, x: v.fuel.setTemperature(650.0),
+    "component.adjustDensityForHeightExpansion": lambda v, x: v.fuel.adjustDensityForHeightExpansion(650.0),
+    "component.applyMaterialMassFracsToNumberDensities": lambda v, x: v.fuel.applyMaterialMassFracsToNumberDensities(),
+    "component.mergeNuclidesInto": lambda v, x: v.clad.mergeNuclidesInto(v.fuel),
+    # on a block (distributes over the components that hold the nuclide)
+    "block.setNumberDensity": lambda v, x: v.b.setNumberDensity(U5, 0.001 * x),
+    "block.setNumberDensity (several holders)": lambda v, x: v.b.setNumberDensity("FE", 0.01 * x),
+    "block.setNumberDensities": lambda v, x: v.b.setNumberDensities({U5: 0.001 * x, "FE": 0.01}),
+    "block.updateNumberDensities": lambda v, x: v.b.updateNumberDensities({"FE": 0.01 * x}),
+    "block.changeNDensByFactor": lambda v, x: v.b.changeNDensByFactor(x),
+    "block.setMass": lambda v, x: v.b.setMass(U5, 50.0 * x),
+    "block.addMass": lambda v, x: v.b.addMass("FE", 100.0 * x),
+    "block.setMassFrac": lambda v, x: v.b.setMassFrac("ZR", 0.02 * x),
+    "block.adjustUEnrich": lambda v, x: v.b.adjustUEnrich(0.1 * x),
+    "block.adjustDensity": lambda v, x: v.b.adjustDensity(x, [U5, "U238"]),
+    "block.clearNumberDensities": lambda v, x: v.b.clearNumberDensities(),
+    "block.setHeight (conserving mass)": lambda v, x: v.b.setHeight(10.0 * x, conserveMass=True, adjustList=[U5, "U238", "ZR", "FE"]),
+    # on the assembly
+    "assembly.changeNDensByFactor": lambda v, x: v.a.changeNDensByFactor(x),
+}
+MUTATORS_QUICK = ("component.setNumberDensity", "component.setNumberDensities", "component.changeNDensByFactor",
+                  "component.setMass", "component.adjustMassEnrichment", "component.setTemperature",
+                  "component.adjustDensityForHeightExpansion",
+                  "block.setNumberDensity (several holders)", "block.changeNDensByFactor", "block.addMass",
+                  "block.adjustUEnrich", "block.setMass")
+
+
+def _composition(v):
+    """{(owner object, what): value}: number densities and temperature of every component, plus the parameters other than
+    the densities that the mutators may touch"""
+    out = {}
+    for bn, b in (("b", v.b), ("b1", v.b1)):
+        for c in b:
+            nd = c.p.numberDensities
+            out[("%s.%s" % (bn, c.name), "nuclides")] = (c, tuple(sorted(nd)))
+            for nuc in sorted(nd):
+                out[("%s.%s" % (bn, c.name), "N(%s)" % nuc)] = (c, nd[nuc])
+            out[("%s.%s" % (bn, c.name), "temperatureInC")] = (c, c.temperatureInC)
+            out[("%s.%s" % (bn, c.name), "percentBu")] = (c, c.p.percentBu)
+            out[("%s.%s" % (bn, c.name), "massHmBOL")] = (c, c.p.massHmBOL)
+        out[(bn, "height")] = (b, b.p.height)
+        out[(bn, "massHmBOL")] = (b, b.p.massHmBOL)
+        out[(bn, "percentBu")] = (b, b.p.percentBu)
+    return out
+
+
+def _is_density(key):
+    return key[1] == "nuclides" or key[1].startswith("N(")
+
+
+def _same_item(ctx, what, got, want, bump=None):
+    if isinstance(want, tuple) or want is None or got is None or isinstance(got, tuple):
+        ctx.check(what, got == want)
+        return
+    if bump is not None:
+        want = want + bump
+    ctx.check_eq(what, got, want)
+
+
+@harness("C16", bounds="mini reactor (reactor > core > assembly > 2 blocks x (fuel UZr, clad HT9, duct HT9)); the fuel's U235 "
+                       "density a symbolic real, the rest of the composition as built; per instance ONE public mutator of "
+                       "composition (on the fuel component, the block or the assembly) with a symbolic argument factor x "
+                       "in [0.25, 1.75]; symbolic choice of the situation: read-only reactor / scope without keep-set / "
+                       "scope keeping numberDensities; scope root reactor, assembly, block, the fuel component or the clad "
+                       "component (symbolic); symbolic boolean: another parameter of the fuel component is assigned inside "
+                       "the scope as well; observed: nuclide set, every number density, temperature, percentBu, massHmBOL "
+                       "of every component of both blocks, height / massHmBOL / percentBu of both blocks",
+         stubs=STUBS, raises=(),
+         instances={"quick": [dict(mutator=m) for m in MUTATORS_QUICK],
+                    "thorough": [dict(mutator=m) for m in MUTATORS]}, max_paths=3000)
+def composition_mutators_respect_scopes_and_read_only(ctx, mutator):
+    v = RView(2)
+    n5 = ctx.real("fuel U235 density", 1e-4, 0.01)
+    x = ctx.real("x", 0.25, 1.75)
+    mode = ctx.choice("situation", ["read-only", "scope", "scope keeping numberDensities"])
+    root = ctx.choice("scope root", ["r", "a", "b", "fuel", "clad"])
+    other = ctx.bool("another parameter of the fuel component is assigned inside the scope")
+    nd = dict(v.fuel.p.numberDensities)
+    nd[U5] = n5
+    v.fuel.p.numberDensities = nd
+    mutate = MUTATORS[mutator]
+    hit = (x == 1.125) if ctx.canary else None
+    bump = ITE(hit, 1, 0) if ctx.canary else None
+    if mode == "read-only":
+        makeParametersReadOnly(v.r)
+        before = _composition(v)
+        refused = False
+        try:
+            mutate(v, x)
+        except RuntimeError:
+            refused = True
+        if ctx.canary:
+            refused = AND(refused, NOT(hit))
+        ctx.check("read-only reactor: %s is refused" % mutator, refused)
+        after = _composition(v)
+        ctx.check("read-only reactor: same set of observed items", sorted(after) == sorted(before))
+        for key in before:
+            if key in after:
+                _same_item(ctx, "read-only reactor: %s %s did not change" % key, after[key][1], before[key][1])
+        return
+    keepSet = [v.fuel.p.paramDefs["numberDensities"]] if mode != "scope" else []
+    rootObj = getattr(v, root)
+    s0 = _composition(v)
+    with rootObj.retainState(keepSet):
+        mutate(v, x)
+        if other:
+            v.fuel.p.puFrac = 0.5 * x
+        s1 = _composition(v)
+    s2 = _composition(v)
+    pdND = v.fuel.p.paramDefs["numberDensities"]
+    want = {}
+    for key in set(s0) | set(s1):
+        owner = (s1.get(key) or s0.get(key))[0]
+        keptHere = _is_density(key) and any(owner.p.paramDefs["numberDensities"] is k for k in keepSet)
+        src = s1 if (keptHere or not beneath(owner, rootObj)) else s0
+        if key in src:
+            want[key] = src[key][1]
+    ctx.check("%s: after the scope exactly the expected items exist" % mode, sorted(s2) == sorted(want))
+    first = True
+    for key in sorted(want):
+        if key in s2:
+            isNum = not isinstance(want[key], tuple) and want[key] is not None
+            _same_item(ctx, "%s: %s %s %s" % (mode, key[0], key[1],
+                                             "has its expected value (kept or outside the scope: value at scope end; "
+                                             "else pre-scope value)"), s2[key][1], want[key],
+                       bump=bump if (first and isNum) else None)
+            first = first and not isNum
+    ctx.check_eq("fuel.puFrac is back", v.fuel.p.puFrac, 0.0) if beneath(v.fuel, rootObj) else None
+
+
+# ---------------------------------------------------------------------------
 # (1c) candidate defects inside a scope (kept as obligations; skipped while the KNOWN_DEFECT flags are set)
 
 
@@ -1146,6 +1473,43 @@ def serial_numbers_fresh_and_unique(ctx):
         pcmod.GLOBAL_SERIAL_NUM = saved if not is_sym(saved) else 10 ** 6
 
 
+@harness("C16", bounds="assembly of 2 blocks x 3 components; the parameters of one object are transferred to another "
+                       "object of the same class through Composite.copyParamsFrom or updateParamsFrom (symbolic choice), "
+                       "the pair a symbolic choice of block -> block, fuel -> fuel, clad -> fuel (same class), assembly -> "
+                       "a second assembly; the source's power / percentBu / chargeTime a symbolic real; afterwards the "
+                       "target is re-assigned with a fresh symbolic value", stubs=STUBS)
+def parameter_transfer_copies_values_not_serial_numbers(ctx):
+    v = View(mk_assembly(2))
+    other = mk_assembly(1)
+    pair = ctx.choice("pair", ["block -> block", "fuel -> fuel", "clad -> fuel", "assembly -> assembly"])
+    update = ctx.bool("updateParamsFrom (else copyParamsFrom)")
+    x = ctx.real("x", 0.0, 100.0)
+    y = ctx.real("y", 0.0, 100.0)
+    src, dst, pname = {"block -> block": (v.b, v.b1, "power"), "fuel -> fuel": (v.fuel, v.b1[0], "percentBu"),
+                       "clad -> fuel": (v.clad, v.fuel, "percentBu"),
+                       "assembly -> assembly": (v.a, other, "chargeTime")}[pair]
+    src.p[pname] = x
+    live = [o for o in v.objects()] + [other, other[0]] + list(other[0])
+    ser0 = [o.p.serialNum for o in live]
+    ctx.check("before: no two live objects share a serial number", len(set(ser0)) == len(ser0))
+    if update:
+        dst.updateParamsFrom(src)
+    else:
+        dst.copyParamsFrom(src)
+    got = dst.p[pname]
+    if ctx.canary:
+        got = got + ITE(AND(x == 42, update), 1, 0)
+    ctx.check_eq("the target carries the source's value", got, x)
+    ser1 = [o.p.serialNum for o in live]
+    if KNOWN_DEFECT_params_from_copies_serial_number and _HIDE:
+        ctx.note("KNOWN_DEFECT_params_from_copies_serial_number: serial-number obligations skipped")
+    else:
+        ctx.check("after the transfer no two live objects share a serial number", len(set(ser1)) == len(ser1))
+        ctx.check("the source keeps its serial number", src.p.serialNum == ser0[[o is src for o in live].index(True)])
+    dst.p[pname] = y
+    ctx.check_eq("changing the target afterwards does not show in the source", src.p[pname], x)
+
+
 # ---------------------------------------------------------------------------
 # (3) read-only reactor
 
@@ -1260,7 +1624,8 @@ def _some_parameter(o):
                        "components), spent fuel pool holding a discharged assembly, a second ex-core structure holding "
                        "a block (27 objects); after makeParametersReadOnly(reactor) an assignment of a symbolic real is "
                        "attempted on ONE object, a symbolic choice over ALL objects of the tree (enumerated by plain "
-                       "iteration over children), through p.name = x or p[name] = x (symbolic choice)", stubs=STUBS)
+                       "iteration over children), through p.name = x, p[name] = x, p.update({name: x}), the history form "
+                       "p[(name, timestep)] = x, or the removal del p[name] (symbolic choice)", stubs=STUBS)
 def read_only_reactor_covers_every_object(ctx):
     r, core, sfp, stored, ex, blk = _mk_reactor_with_excore()
     objs = list(_walk(r))
@@ -1268,27 +1633,52 @@ def read_only_reactor_covers_every_object(ctx):
     assert all(any(o is m for o in objs) for m in must), "harness precondition: the walk reaches every system"
     x = ctx.real("x", 1.0, 650.0)
     k = ctx.int("object", 0, len(objs) - 1)
-    viaItem = ctx.bool("p[name] = x (else p.name = x)")
+    how = ctx.choice("way of assignment", RO_WAYS)
+    if KNOWN_DEFECT_readonly_history_and_delete and _HIDE and how in ("p[(name, timestep)] = x", "del p[name]"):
+        ctx.note("KNOWN_DEFECT_readonly_history_and_delete: %s skipped" % how)
+        return
     ctx.check("writable before", not any(o.p.readOnly for o in objs))
     makeParametersReadOnly(r)
     for n, o in enumerate(objs):
         ctx.check("object %d of the tree is read-only: %s > %s" % (n, _where(o, core), type(o).__name__), o.p.readOnly)
     o = objs[int(k)]
     name = _some_parameter(o)
-    before = o.p[name]
+
+    def state():
+        """what the collection answers for that parameter: value, presence, value recorded for a time step"""
+        hasHist = (name, 3) in o.p
+        return (read_param(o, name), name in o.p, o.p[(name, 3)] if hasHist else None, hasHist)
+
+    before = state()
     refused = False
     try:
-        if viaItem:
+        if how == "p[name] = x":
             o.p[name] = x + 1
-        else:
+        elif how == "p.name = x":
             setattr(o.p, name, x + 1)
+        elif how == "p.update({name: x})":
+            o.p.update({name: x + 1})
+        elif how == "p[(name, timestep)] = x":
+            o.p[(name, 3)] = x + 1
+        else:
+            del o.p[name]
     except RuntimeError:
         refused = True
     if ctx.canary:
         refused = AND(refused, NOT(AND(k == len(objs) - 3, x == 333)))
-    what = "%s > %s .p.%s" % (_where(o, core), type(o).__name__, name)
+    what = "%s > %s .p.%s, %s" % (_where(o, core), type(o).__name__, name, how)
     ctx.check("assignment is refused: " + what, refused)
-    ctx.check("... and the value did not change: " + what, _plain_eq(o.p[name], before))
+    after = state()
+    ctx.check("... and nothing the collection reports for it changed: " + what,
+              all(_plain_eq(p, q) for p, q in zip(_flat(before), _flat(after))))
+
+
+RO_WAYS = ["p.name = x", "p[name] = x", "p.update({name: x})", "p[(name, timestep)] = x", "del p[name]"]
+
+
+def _flat(st):
+    (val, has), present, hist, histPresent = st
+    return [val, has, present, hist, histPresent]
 
 
 def _where(o, core):
